@@ -7,6 +7,7 @@ from vf.gen import expr as G
 from vf.monitors import capture, describe
 from vf.ref import logic
 
+from ahbicht.content_evaluation.fc_evaluators import text_to_be_evaluated_by_format_constraint
 from ahbicht.expressions.condition_expression_parser import parse_condition_expression_to_tree
 from ahbicht.expressions.format_constraint_expression_evaluation import evaluate_format_constraint_tree, format_constraint_evaluation
 from ahbicht.models.condition_nodes import EvaluatedFormatConstraint
@@ -112,6 +113,44 @@ async def check_shipped(ctx, case):
                 return
 
 
+async def check_concurrent(ctx, case):
+    """several format_constraint_evaluation calls for the SAME expression run concurrently, each with its own text in its own context;
+    the evaluator's verdict is a keyed predicate of the text: every evaluation must get the Boolean value for ITS text"""
+    import asyncio
+
+    ast, s, texts = case["ast"], case["s"], case["texts"]
+    ctx.set_case("concurrent", case)
+    keys = G.keys_of(ast, "fc")
+    world = E.World("c08", fc_mode="text")
+
+    async def one(text):
+        E.set_world(world)
+        text_to_be_evaluated_by_format_constraint.set(text)
+        return await format_constraint_evaluation(s)
+
+    async def all_of_them():
+        return await asyncio.gather(*[asyncio.ensure_future(one(t)) for t in texts], return_exceptions=True)
+
+    sc = sched.Sched(sched.RandomChooser(ctx.rng))
+    out = await sched.run_under(sc, all_of_them)
+    ctx.evaluation(len(texts))
+    ctx.count("concurrent_evaluations", len(texts))
+    if out[0] != "ok":
+        ctx.violation(f"fc-evaluation-raises-{type(out[1]).__name__}", f"{len(texts)} concurrent format_constraint_evaluation({s!r}) {describe(out)[:200]}")
+        return
+    for text, res in zip(texts, out[1]):
+        expected = logic.ast_bool(ast, {k: E.text_predicate(k, text) for k in keys})
+        if isinstance(res, BaseException):
+            ctx.violation(f"fc-evaluation-raises-{type(res).__name__}", f"format_constraint_evaluation({s!r}) for text {text!r} (one of {len(texts)} concurrent ones) raised {res!r:.200}")
+            return
+        if res.format_constraints_fulfilled is not expected:
+            ctx.violation("boolean-value", f"format_constraint_evaluation({s!r}) for text {text!r}, running concurrently with evaluations for {[t for t in texts if t != text]}: {res.format_constraints_fulfilled!r}, Boolean value for this text is {expected}")
+            return
+        if res.error_message and any(repr(t) in res.error_message for t in texts if t != text and repr(t) not in repr(text)):
+            ctx.violation("foreign-text-in-message", f"format_constraint_evaluation({s!r}) for text {text!r}: the error message talks about another evaluation's text: {res.error_message!r:.300}")
+            return
+
+
 async def run(ctx):
     rng = ctx.rng
     E.install()
@@ -134,6 +173,8 @@ async def run(ctx):
         await check_expression(ctx, case)
         if i % 3 == 0:
             await check_shipped(ctx, case)
+        if i % 4 == 1:
+            await check_concurrent(ctx, dict(case, texts=[f"text-{i}-{j}" for j in range(rng.randint(2, 5))]))
         if i % 250 == 0:
             ctx.sample({"s": case["s"]}, cls="expression")
 
@@ -146,5 +187,7 @@ async def replay(ctx, phase, case):
             ctx.violation("empty-expression", f"format_constraint_evaluation({case['fce']!r}) {describe(aout)[:200]}", phase=phase, case=case)
     elif phase == "shipped":
         await check_shipped(ctx, case)
+    elif phase == "concurrent":
+        await check_concurrent(ctx, case)
     else:
         await check_expression(ctx, case)
